@@ -2074,6 +2074,10 @@ export class ObjectRuntype extends BaseRuntype {
         optionalized.add(k);
       } else {
         properties[k] = raw;
+        if (item instanceof OptionalFieldRuntype) {
+          // `b?: null` / `b?: undefined`: nothing but null branches to strip, still optional
+          optionalized.add(k);
+        }
       }
       popPath(ctx);
     }
